@@ -464,6 +464,11 @@ def plan_C03(rep, seed, tier):
     binp = build_harness('default')
     rv(rep, binp, 'enc-sweep', seed, tier, shards=32)
     rv(rep, binp, 'enc-pairs', seed, tier)
+    r = mc_run('MC_Indexes', {}, invariants=('Inv',), view=None, workers=1)
+    rep.add_mc(r['name'], r, 'Layer S: the inverse tables used by the encoder oracle satisfy the Standard\'s pointer-selection rules (first pointer; Big5 last-pointer set and '
+                            'excluded lead range; Shift_JIS excluded range) with respect to the forward indexes (Indexes!InverseCorrect)')
+    if r.get('violated') or not r.get('completed'):
+        rep.notes.append('MODEL-ALARM MC_Indexes: ' + (r.get('error_text') or '')[:1000])
     rep.cov['exhaustive'] = tier == 'thorough'
     rep.cov['rule'] = ('every scalar value alone through every encoder from UTF-8 and UTF-16 (BMP exhaustive; astral stride 16 in quick, exhaustive in thorough), '
                        'set equality of the mapped list with the spec; every ordered pair over a 40-scalar class alphabet (+ lone surrogates) as whole texts; seeded random texts')
